@@ -416,7 +416,7 @@ func (w *World) AirProcess(a *AirNode, opJSON []byte) ([]byte, error) {
 		return nil, nil
 	}
 	if t.panicV != nil {
-		a.Panics = append(a.Panics, fmt.Sprintf("%v", t.panicV))
+		a.Panics = append(a.Panics, fmt.Sprintf("%v @ %s", t.panicV, panicSite(t.panicStack)))
 		err = fmt.Errorf("panic: %v", t.panicV)
 		t.panicV = nil
 	}
